@@ -297,9 +297,13 @@ def check_catalog_case(cid, modes, acc=None, double=False):
         if acc:
             acc.tally("catalog_status", "skip_numeric_validation")
         return out
+    feed_sets = []
     for mode in modes:
         rng = np.random.default_rng(1000 * mode + 7)
-        fds = catalog.feeds(p, rng, mode)
+        feed_sets.append((mode, catalog.feeds(p, rng, mode)))
+    for k, (label, fv) in enumerate(catalog.structural_variants(p)):
+        feed_sets.append((100 + k, fv))
+    for mode, fds in feed_sets:
         try:
             with jaxutil.x64(double):
                 r32 = jaxutil.flatten(p.fn(*[jnp.asarray(f) for f in fds], **p.params))
@@ -351,7 +355,7 @@ def check_catalog_case(cid, modes, acc=None, double=False):
             if st_ == "ok" and len(acc.samples) < 3:
                 acc.samples.append({"layer": "catalog", "id": cid, "mode": mode, "first_input": (np.asarray(fds[0]).reshape(-1)[:5].tolist() if fds else [])})
         if st_ not in ("ok", "trivial"):
-            out.append({"sig": dict(sigbase, kind=st_, input_class=["normal", "pool_small", "pool_wide", "benign"][mode] if p.base is None else f"scale{mode}"),
+            out.append({"sig": dict(sigbase, kind=st_, input_class=(["normal", "pool_small", "pool_wide", "benign"][mode] if p.base is None else f"scale{mode}") if mode < 100 else "structural_variant"),
                         "case": {"kind": "catalog", "id": cid, "modes": [mode], "double": double}, "detail": f"mode {mode}: {d}"})
     return out
 
@@ -381,6 +385,180 @@ def _work_catalog(sh, acc):
         acc.timed(cid + (" [f64]" if sh.get("double") else ""), time.monotonic() - t0)
 
 
+# --------------------------------------------------------------------------- parametrised modules (layer D)
+
+
+def module_strategy():
+    from hypothesis import strategies as st
+
+    eps = st.sampled_from([1e-6, 1e-5, 1e-3, 1e-2])
+    b = st.booleans()
+    return st.one_of(
+        st.tuples(st.just("nnx.LayerNorm"), eps, b, b).map(list),
+        st.tuples(st.just("nnx.RMSNorm"), eps, b).map(list),
+        st.tuples(st.just("nnx.BatchNorm"), eps, b, b).map(list),
+        st.tuples(st.just("nnx.GroupNorm"), eps, st.sampled_from([1, 2, 4]), b).map(list),
+        st.tuples(st.just("nnx.Linear"), b, st.sampled_from([1, 3])).map(list),
+        st.tuples(st.just("nnx.Conv"), st.sampled_from([1, 2, 3]), st.sampled_from([1, 2]), st.sampled_from(["SAME", "VALID"]), st.sampled_from([1, 2]), b).map(list),
+        st.tuples(st.just("nnx.pool"), st.sampled_from(["avg", "max"]), st.sampled_from([2, 3]), st.sampled_from([1, 2]), st.sampled_from(["SAME", "VALID"])).map(list),
+        st.tuples(st.just("eqx.LayerNorm"), eps, b, b).map(list),
+        st.tuples(st.just("eqx.RMSNorm"), eps, b, b).map(list),
+        st.tuples(st.just("eqx.GroupNorm"), eps, st.sampled_from([1, 2]), b).map(list),
+        st.tuples(st.just("eqx.Linear"), b, st.sampled_from([1, 3])).map(list),
+        st.tuples(st.just("eqx.Conv2d"), st.sampled_from([1, 3]), st.sampled_from([1, 2]), st.sampled_from([0, 1]), b).map(list),
+    )
+
+
+def build_module(spec, seed):
+    """Returns (callable, input shape)."""
+    import equinox as eqx
+    import jax
+    from flax import nnx
+
+    k = spec[0]
+    if k == "nnx.LayerNorm":
+        m = nnx.LayerNorm(4, epsilon=spec[1], use_bias=spec[2], use_scale=spec[3], rngs=nnx.Rngs(seed))
+        return m, (3, 4)
+    if k == "nnx.RMSNorm":
+        return nnx.RMSNorm(4, epsilon=spec[1], use_scale=spec[2], rngs=nnx.Rngs(seed)), (3, 4)
+    if k == "nnx.BatchNorm":
+        return nnx.BatchNorm(4, epsilon=spec[1], use_bias=spec[2], use_scale=spec[3], use_running_average=True, rngs=nnx.Rngs(seed)), (3, 4)
+    if k == "nnx.GroupNorm":
+        return nnx.GroupNorm(4, num_groups=spec[2], epsilon=spec[1], use_bias=spec[3], rngs=nnx.Rngs(seed)), (3, 4)
+    if k == "nnx.Linear":
+        return nnx.Linear(4, spec[2], use_bias=spec[1], rngs=nnx.Rngs(seed)), (3, 4)
+    if k == "nnx.Conv":
+        return nnx.Conv(2, 3, kernel_size=(spec[1], spec[1]), strides=spec[2], padding=spec[3], kernel_dilation=spec[4], use_bias=spec[5], rngs=nnx.Rngs(seed)), (1, 6, 6, 2)
+    if k == "nnx.pool":
+        f = nnx.avg_pool if spec[1] == "avg" else nnx.max_pool
+        return (lambda x: f(x, window_shape=(spec[2], spec[2]), strides=(spec[3], spec[3]), padding=spec[4])), (1, 6, 6, 2)
+    key = jax.random.PRNGKey(seed)
+    if k == "eqx.LayerNorm":
+        return eqx.nn.LayerNorm(4, eps=spec[1], use_weight=spec[2], use_bias=spec[3]), (4,)
+    if k == "eqx.RMSNorm":
+        return eqx.nn.RMSNorm(4, eps=spec[1], use_weight=spec[2], use_bias=spec[3]), (4,)
+    if k == "eqx.GroupNorm":
+        return eqx.nn.GroupNorm(groups=spec[2], channels=4, eps=spec[1], channelwise_affine=spec[3]), (4, 3)
+    if k == "eqx.Linear":
+        return eqx.nn.Linear(4, spec[2], use_bias=spec[1], key=key), (4,)
+    if k == "eqx.Conv2d":
+        return eqx.nn.Conv2d(2, 3, kernel_size=spec[1], stride=spec[2], padding=spec[3], use_bias=spec[4], key=key), (2, 6, 6)
+    raise KeyError(k)
+
+
+def check_module(spec, seed, scale, acc=None):
+    import jax.numpy as jnp
+    from vf import jaxutil
+
+    try:
+        fn, shape = build_module(spec, seed)
+    except Exception as e:
+        if acc:
+            acc.tally("module_status", f"{spec[0]}:constructor_rejects")
+        return []
+    rng = np.random.default_rng(seed)
+    x = (rng.standard_normal(shape) * scale).astype(np.float32)
+    if scale < 0.01:
+        x = x + np.float32(0.5)  # tiny variance around an offset: what an epsilon is for
+    case = {"kind": "module", "spec": spec, "seed": seed, "scale": scale}
+    try:
+        ref = jaxutil.flatten(fn(jnp.asarray(x)))
+    except Exception:
+        if acc:
+            acc.tally("module_status", f"{spec[0]}:jax_rejects")
+        return []
+    try:
+        m = jaxutil.to_onnx(fn, [shape])
+    except Exception as e:
+        if acc:
+            acc.tally("module_status", f"{spec[0]}:export_rejected")
+            acc.tally("rejected_reasons", f"{spec[0]}: {type(e).__name__}: {str(e)[:70]}")
+            acc.case()
+        return []
+    try:
+        got = jaxutil.run_model(m, [x])
+    except Exception as e:
+        return [{"sig": {"layer": "module", "module": spec[0], "kind": "ort_error"}, "case": case, "detail": str(e)[:250]}]
+    ref64 = None
+    try:
+        with jaxutil.x64(True):
+            ref64 = jaxutil.flatten(fn(jnp.asarray(x.astype(np.float64))))
+    except Exception:
+        ref64 = None
+    st_, d = jaxutil.compare_all(got, ref, ref64 if ref64 is not None and len(ref64) == len(ref) and all(np.asarray(r).dtype == np.float64 for r in ref64) else None)
+    if acc:
+        acc.case(key=("module", digest(spec), seed, scale), nontrivial=(st_ == "ok"))
+        acc.tally("module_status", f"{spec[0]}:{st_}")
+        if st_ == "ok" and len(acc.samples) < 4:
+            acc.samples.append({"layer": "module", "spec": spec, "input_scale": scale})
+    if st_ not in ("ok", "trivial"):
+        cls = "tiny_variance" if scale < 0.01 else ("large" if scale > 10 else "normal")
+        return [{"sig": {"layer": "module", "module": spec[0], "kind": st_, "input_class": cls}, "case": case, "detail": f"{spec}: {d}"}]
+    return []
+
+
+def module_specs(seed, tier):
+    """Enumerates the discrete hyper-parameter product (booleans seeded in quick, full product in thorough)."""
+    import itertools
+
+    rng = np.random.default_rng(seed)
+    eps = [1e-6, 1e-5, 1e-3, 1e-2]
+    bools = [False, True]
+
+    def bb(n):
+        return list(itertools.product(bools, repeat=n)) if tier == "thorough" else [tuple(bool(rng.integers(0, 2)) for _ in range(n))]
+
+    out = []
+    for e in eps:
+        for b in bb(2):
+            out.append(["nnx.LayerNorm", e, b[0], b[1]])
+            out.append(["nnx.BatchNorm", e, b[0], b[1]])
+            out.append(["eqx.LayerNorm", e, b[0], b[1]])
+            out.append(["eqx.RMSNorm", e, b[0], b[1]])
+        for b in bb(1):
+            out.append(["nnx.RMSNorm", e, b[0]])
+            for g in ([1, 2, 4] if tier == "thorough" else [int(rng.choice([1, 2, 4]))]):
+                out.append(["nnx.GroupNorm", e, g, b[0]])
+            for g in ([1, 2] if tier == "thorough" else [int(rng.choice([1, 2]))]):
+                out.append(["eqx.GroupNorm", e, g, b[0]])
+    for b in bools:
+        for m in (1, 3):
+            out.append(["nnx.Linear", b, m])
+            out.append(["eqx.Linear", b, m])
+    for k, st_, pad, dil in itertools.product([1, 2, 3], [1, 2], ["SAME", "VALID"], [1, 2]):
+        for b in bb(1):
+            out.append(["nnx.Conv", k, st_, pad, dil, b[0]])
+    for kind, w, st_, pad in itertools.product(["avg", "max"], [2, 3], [1, 2], ["SAME", "VALID"]):
+        out.append(["nnx.pool", kind, w, st_, pad])
+    for k, st_, pad in itertools.product([1, 3], [1, 2], [0, 1]):
+        for b in bb(1):
+            out.append(["eqx.Conv2d", k, st_, pad, b[0]])
+    return out
+
+
+def _work_modules_enum(sh, acc):
+    for spec in sh["specs"]:
+        for scale in (1e-3, 1.0, 30.0):
+            for v in check_module(spec, sh["seed"] % 7, scale, acc):
+                acc.violation(v["sig"], v["case"], v["detail"])
+
+
+def _work_modules(sh, acc):
+    import hypothesis
+    from hypothesis import HealthCheck, Phase, given, settings, strategies as st
+
+    @hypothesis.seed(derive_seed(sh["seed"], "c01mod", sh["shard"]))
+    @settings(max_examples=sh["examples"], deadline=None, database=None, suppress_health_check=list(HealthCheck),
+              phases=[Phase.generate], report_multiple_bugs=False)
+    @given(module_strategy(), st.integers(0, 5))
+    def t(spec, seed):
+        for scale in (1e-3, 1.0, 30.0):  # tiny variance / ordinary / large: every drawn configuration sees all three
+            for v in check_module(spec, seed, scale, acc):
+                acc.violation(v["sig"], v["case"], v["detail"])
+
+    t()
+
+
 # --------------------------------------------------------------------------- plan / dispatch
 
 
@@ -392,6 +570,10 @@ def plan(tier, seed):
     ex = 14 if tier == "quick" else 90
     for i in range(n):
         shards.append({"kind": "programs", "shard": i, "seed": seed, "examples": ex})
+    specs = module_specs(seed, tier)
+    nm = 8 if tier == "quick" else 16
+    for i in range(nm):
+        shards.append({"kind": "modules", "specs": specs[i::nm], "seed": seed})
     un = progen.UN_F_NAMES
     bi = progen.BIN_F_NAMES
     bint = progen.BIN_I_NAMES
@@ -419,6 +601,8 @@ def work(sh):
         _work_lattice(sh, acc)
     elif sh["kind"] == "catalog":
         _work_catalog(sh, acc)
+    elif sh["kind"] == "modules":
+        _work_modules_enum(sh, acc)
     return acc.to_dict()
 
 
@@ -458,6 +642,8 @@ def replay(case):
 
     if case.get("kind") == "catalog":
         return check_catalog_case(case["id"], case["modes"], None, double=case.get("double", False))
+    if case.get("kind") == "module":
+        return check_module(case["spec"], case["seed"], case["scale"], None)
     feeds = [onnxutil.arr_from_json(f) for f in case["feeds"]]
     st_, d, _ = check_program(case["prog"], feeds)
     if st_ in ("ok", "trivial", "rejected", "jax_error"):
